@@ -87,17 +87,28 @@ where
 
         // An entry whose stream type is zero is an unused one. Write the location first and
         // the type last, so that a destination which takes the entry in pieces (or fails half
-        // way) never holds a used entry with an incomplete location.
+        // way) never holds a used entry with an incomplete location. The type itself goes out
+        // upper half first: its lower half alone is the number of another, well-known stream
+        // type (0x4767_0003 would read as 3, the thread list).
         let start = idx_pos.rva as usize;
         let end = (idx_pos.rva + idx_pos.data_size) as usize;
         let type_len = std::mem::size_of::<u32>();
+        let half = type_len / 2;
         let slot = self.destination_start_offset + idx_pos.rva as u64;
         self.destination
             .seek(std::io::SeekFrom::Start(slot + type_len as u64))?;
         self.destination.write_all(&buffer[start + type_len..end])?;
-        self.destination.seek(std::io::SeekFrom::Start(slot))?;
-        self.destination
-            .write_all(&buffer[start..start + type_len])?;
+        let (lower, upper) = if cfg!(target_endian = "little") {
+            (0, half)
+        } else {
+            (half, 0)
+        };
+        for part in [upper, lower] {
+            self.destination
+                .seek(std::io::SeekFrom::Start(slot + part as u64))?;
+            self.destination
+                .write_all(&buffer[start + part..start + part + half])?;
+        }
 
         // Reset file-position
         self.destination
